@@ -119,7 +119,10 @@ fn b64(bytes: &[u8]) -> String {
   base64::encode(bytes)
 }
 
-const MALFORMED: [&str; 38] = [
+const MALFORMED: [&str; 41] = [
+  "eval_builtin_on_odd_values",
+  "eval_builtin_on_odd_values",
+  "eval_builtin_on_odd_values",
   "eval_generated_expression",
   "eval_generated_expression",
   "eval_generated_expression",
@@ -181,10 +184,71 @@ const ODD_NUMBERS: [&str; 16] = [
   "(10 ** 6000) * (10 ** 6000) / ((10 ** 6000) * (10 ** 6000))",
 ];
 
-const ODD_CONTEXTS: [&str; 16] = [
+/// Built-in functions of the implementation and values of every kind at and beyond their range: an entry of
+/// a request body may apply any function or operator to any of them and must still be answered.
+const BUILTINS: [(&str, &[usize]); 74] = [
+  ("abs", &[1]), ("after", &[2]), ("all", &[1, 3]), ("any", &[1, 3]), ("append", &[2, 3]), ("before", &[2]), ("ceiling", &[1]), ("coincides", &[2]), ("concatenate", &[2, 3]), ("contains", &[2]), ("count", &[1]),
+  ("date", &[1, 3]), ("date and time", &[1, 2]), ("day of week", &[1]), ("day of year", &[1]), ("decimal", &[2]), ("distinct values", &[1]), ("duration", &[1]), ("during", &[2]), ("ends with", &[2]), ("even", &[1]),
+  ("exp", &[1]), ("finished by", &[2]), ("finishes", &[2]), ("flatten", &[1]), ("floor", &[1]), ("get entries", &[1]), ("get value", &[2]), ("includes", &[2]), ("index of", &[2]), ("insert before", &[3]), ("is", &[2]),
+  ("list contains", &[2]), ("log", &[1]), ("lower case", &[1]), ("matches", &[2, 3]), ("max", &[1, 3]), ("mean", &[1, 3]), ("median", &[1, 3]), ("meets", &[2]), ("met by", &[2]), ("min", &[1, 3]), ("mode", &[1, 3]),
+  ("modulo", &[2]), ("month of year", &[1]), ("not", &[1]), ("number", &[3]), ("odd", &[1]), ("overlaps after", &[2]), ("overlaps before", &[2]), ("product", &[1, 3]), ("remove", &[2]), ("replace", &[3, 4]),
+  ("reverse", &[1]), ("sort", &[2]), ("split", &[2]), ("sqrt", &[1]), ("started by", &[2]), ("starts", &[2]), ("starts with", &[2]), ("stddev", &[1, 3]), ("string", &[1]), ("string length", &[1]), ("sublist", &[2, 3]),
+  ("substring", &[2, 3]), ("substring after", &[2]), ("substring before", &[2]), ("sum", &[1, 3]), ("time", &[1, 3, 4]), ("union", &[2, 3]), ("upper case", &[1]), ("week of year", &[1]),
+  ("years and months duration", &[2]), ("string join", &[1, 2]),
+];
+const ODD_VALUES: [&str; 56] = [
+  "null", "0", "-1", "1", "2", "3", "0.5", "-0.5", "10 ** 30", "-(10 ** 30)", "10 ** -30", "9999999999", "(10 ** 6000) * (10 ** 6000)", "\"\"", "\"a\"", "\"abc\"", "\"[\"", "\"(?\"", "\"\\\\\"", "\"$1\"",
+  "\"\u{e9}\u{4e2d}\u{1F600}\"", "\"2021-03-28\"", "\"P1D\"", "\".\"", "\",\"", "true", "false", "[]", "[null]", "[1, 2, 3]", "[[1], [2, [3]]]", "[\"b\", \"a\"]", "[1, \"a\", null]", "[true, false]", "{}", "{a: 1}",
+  "{a: {b: [1]}}", "{key: \"a\", value: 1}", "date(\"2021-03-28\")", "date(\"999999999-12-31\")", "date(\"-999999999-01-01\")", "time(\"10:20:30\")", "time(\"23:59:59.999999999+14:00\")",
+  "time(10, 0, 0, duration(\"PT23H59M\"))", "time(10, 0, 0, duration(\"-PT99999H\"))", "date and time(\"2021-03-28T02:30:00@Europe/Warsaw\")", "date and time(\"-999999999-01-01T00:00:00Z\")",
+  "date and time(\"999999999-12-31T23:59:59.999999999-14:00\")", "duration(\"P1D\")", "duration(\"-P999999999D\")", "duration(\"P1Y\")", "duration(\"P999999999Y\")", "[1..5]", "(1..5)",
+  "[date(\"2021-01-01\")..date(\"2021-12-31\")]", "function(a, b) a < b",
+];
+
+pub fn debug_builtin_body(seed: u64) -> String {
+  builtin_on_odd_values(seed)
+}
+
+fn builtin_on_odd_values(seed: u64) -> String {
+  let mut rng = Rng::new(seed);
+  let v = |rng: &mut Rng| -> String {
+    let x = *rng.pick(&ODD_VALUES);
+    if rng.chance(1, 8) {
+      format!("-{}", x)
+    } else {
+      x.to_string()
+    }
+  };
+  let e = match rng.index(10) {
+    0..=5 => {
+      let (f, arities) = *rng.pick(&BUILTINS);
+      // mostly as many arguments as the function takes, sometimes any number
+      let n = if rng.chance(6, 7) { *rng.pick(arities) } else { rng.index(5) };
+      let args: Vec<String> = (0..n).map(|_| v(&mut rng)).collect();
+      format!("{}({})", f, args.join(", "))
+    }
+    6 => format!("{} {} {}", v(&mut rng), rng.pick(&["+", "-", "*", "/", "**", "<", "<=", "=", "!=", "and", "or", "in"]), v(&mut rng)),
+    7 => format!("{}[{}]", v(&mut rng), v(&mut rng)),
+    8 => format!("{} between {} and {}", v(&mut rng), v(&mut rng), v(&mut rng)),
+    _ => {
+      let prop = *rng.pick(&["year", "month", "day", "weekday", "hour", "minute", "second", "time offset", "timezone", "years", "months", "days", "hours", "minutes", "seconds", "start", "end", "start included", "a", "key"]);
+      format!("({}).{}", v(&mut rng), prop)
+    }
+  };
+  match rng.index(3) {
+    0 => format!("{{s: string({})}}", e),
+    1 => format!("{{r: {}, s: string(r = r)}}", e),
+    _ => format!("{{s: if {} then \"t\" else \"e\"}}", e),
+  }
+}
+
+const ODD_CONTEXTS: [&str; 18] = [
   // a function that invokes itself for ever (an entry of a context literal sees itself)
   "{f: function(n) f(n + 1), s: string(f(1))}",
   "{f: function(n) if n < 0 then 0 else 1 + f(n + 1), s: string(f(1))}",
+  // a name beginning with the part `in` where the variable of an iteration is expected
+  "{s: string(for in+x in [1] return 1)}",
+  "{s: string(some in-a in [1] satisfies true)}",
   // values that exist but are out of the range of what the date library represents
   "{s: string(time(10, 0, 0, duration(\"PT99999H\")) = time(\"10:00:00Z\"))}",
   "{s: string(date and time(date(\"2021-01-01\"), time(10, 0, 0, duration(\"PT24H\"))) - date and time(\"2021-01-01T10:00:00Z\"))}",
@@ -470,6 +534,14 @@ fn build_request(s: &Setup, r: &Value) -> Built {
           path: format!("/evaluate/{}/echo_s", percent_encode(&model_name(m))),
           content_type: None,
           body: crate::c13::generated_request_context(pu64(r, "g")).into_bytes(),
+          op: Op::EvalAny(model_name(m)),
+          label: label.clone(),
+        },
+        "eval_builtin_on_odd_values" => Built {
+          method: "POST",
+          path: format!("/evaluate/{}/echo_s", percent_encode(&model_name(m))),
+          content_type: None,
+          body: builtin_on_odd_values(pu64(r, "g")).into_bytes(),
           op: Op::EvalAny(model_name(m)),
           label: label.clone(),
         },
@@ -1880,6 +1952,13 @@ fn loopback_script(seed: u64) -> Vec<Value> {
   script.push(json!({"kind": "add", "m": "H", "net": {"oversize": true}}));
   script.push(json!({"kind": "eval", "m": "A2", "net": {"oversize": true}}));
   script.push(json!({"kind": "info"}));
+  // the real server has no probe that ends a runaway recursion: those two bodies (the open known finding)
+  // would overflow the stack of a worker and end the server process and with it this pass
+  for r in script.iter_mut() {
+    if pstr(r, "what") == "eval_odd_builtin_arguments" && pu64(r, "n") as usize % ODD_CONTEXTS.len() < 2 {
+      r["n"] = json!(pu64(r, "n") + 2);
+    }
+  }
   script
 }
 
